@@ -77,6 +77,8 @@ def run(seed_dir, props=None):
             res[p] = {"exit": rc, "lines": [l[:300] for l in lines][:12], "wall_s": round(time.time() - t0, 1)}
     finally:
         sh("git -C %s checkout -- ." % REPO)
+        # evidence written while a seeded change was applied must never be committed
+        sh("git -C %s checkout -- evidence" % VERIF)
     return res
 
 if __name__ == "__main__":
